@@ -19,6 +19,27 @@ CLAIMED = {
                 "restricted to spe <= dup + 2*floss; outside it only the F-COHERENCE witnesses of known_findings.json are replayed.",
         "technique": TECH_E2,
     },
+    "C02": {
+        "category": "exploration",
+        "text": "Bounded-exhaustive over labelled inputs: quick <=3 object x <=2 species leaves x all 15 arrangements of <=3 families "
+                "(tuples up to family renaming, inconsistent orders kept) + prescribed root orders; thorough adds <=3x<=3x3 families, "
+                "4x<=3x2 families, 4x<=2x subsequences of abc, each with its coherent cost menu, ext_spfs and base_spfs, ALL and ANY. "
+                "Oracle: Bellman over (species, subsequence) for every compatible root order; base: LCA mapping fixed.",
+        "design_ref": "6 (C02), 4.2-4.4, 5",
+        "note": "Trusted: refmodel/ordered.py (cross-validated against brute force in selftest). Coherent cost region only; "
+                "F-COHERENCE witnesses replayed from known_findings.json. Nothing claimed beyond 4 object leaves / 3 families.",
+        "technique": TECH_E2,
+    },
+    "C03": {
+        "category": "exploration",
+        "text": "Bounded-exhaustive over unordered labelled inputs: quick <=3x<=3 leaves x all subsets of 3 families and 4x<=2x2 families; "
+                "thorough adds 4x<=3x2, 4x<=2x4 families, 5x<=2x2. Oracle searches EVERY admissible labelling (brute force <=4 leaves, "
+                "Bellman at 5), so the solver's restriction to the LCA/INHERIT labellings is itself decided on these slices.",
+        "design_ref": "6 (C03), 4.2-4.4, 5",
+        "note": "Trusted: refmodel/unordered.py (brute force <-> Bellman cross-validated). Coherent cost region only; "
+                "F-COHERENCE witnesses replayed from known_findings.json.",
+        "technique": TECH_E2,
+    },
     "C16": {
         "category": "model_checking",
         "text": "Explicit-state BFS over all reachable states of real Entry objects and table cells (1-3 dimensional, "
